@@ -1,6 +1,7 @@
 import AFV.Driver.Proto
 import AFV.Driver.NestJson
 import AFV.Spec.FusedPeak
+import AFV.Spec.PeakSingle
 namespace AFV.Driver.C06
 open Lean AFV.Proto AFV.Driver.NestJson AFV.FusedPeak
 
@@ -39,13 +40,21 @@ def fworkload? (j : Json) : Option Workload := do
 
 /-- ops:
   {"op":"eval", …}                                               as C05 (single Einsum: analytic usage)
-  {"op":"peak","workload":W,"tree":T,"levels":n}                 → [[p,q],…]  peak bits per memory level (reference timeline) -/
+  {"op":"peak","workload":W,"tree":T,"levels":n}                 → [[p,q],…]  peak bits per memory level (reference timeline)
+  {"op":"peaksingle","arch":…,"workload":…,"mapping":…}          → {"wf":b,"notoll":b,"holds":b}  the instance of
+        `AFV.C06.PeakSingleStatement` (reported bits of every memory = reference peak of the one-leaf tree) -/
 def handle (req : Json) : Json :=
   match (field? req "op").bind getStr? with
   | some "eval" => evalReply req
   | some "peak" =>
     match (field? req "workload").bind fworkload?, (field? req "tree").bind (treeFuel? 16), (field? req "levels").bind getNat? with
     | some w, some t, some n => Json.arr ((List.range n).map (fun l => ofRat (peak w t l))).toArray
+    | _, _, _ => err "malformed"
+  | some "peaksingle" =>
+    match (field? req "arch").bind arch?, (field? req "workload").bind workload?, (field? req "mapping").bind mapping? with
+    | some arch, some (wq, wn), some m =>
+      Json.mkObj [("wf", Json.bool (AFV.Nest.WF arch wn m)), ("notoll", Json.bool (AFV.PeakSingle.noToll m)),
+                  ("holds", Json.bool (AFV.PeakSingle.peakSingleCheck arch wq wn m))]
     | _, _, _ => err "malformed"
   | _ => err "bad-op"
 
